@@ -23,6 +23,7 @@ Env = dict
 
 class Interp:
     def __init__(self, ix: PyIndex):
+        self._loop_acc: list[dict[str, Any]] = []
         self.ix = ix
         self.tr = TypeResolver(ix)
         self.fields: dict[tuple[str, str], AV] = {}
@@ -403,6 +404,8 @@ class Interp:
 
     def _run_body(self, f: FuncInfo, env: Env) -> tuple[AV, Env]:
         saved = (getattr(self, "_ret_acc", BOTTOM), getattr(self, "_yield_acc", BOTTOM), getattr(self, "_has_yield", False))
+        saved_loops = getattr(self, "_loop_acc", [])
+        self._loop_acc = []   # (a function body starts outside every loop of its caller)
         self._ret_acc, self._yield_acc, self._has_yield = BOTTOM, BOTTOM, False
         try:
             out_env = self.ex(f.node.body, env)
@@ -413,6 +416,7 @@ class Interp:
             return ret, (out_env if out_env is not None else env)
         finally:
             self._ret_acc, self._yield_acc, self._has_yield = saved
+            self._loop_acc = saved_loops
 
     def analyze_function(self, f: FuncInfo) -> None:
         saved = (self.cur, self.cur_mod)
@@ -1314,28 +1318,43 @@ class Interp:
         if isinstance(st, (ast.For, ast.AsyncFor)):
             it = self.ev(st.iter, env)
             cur: Env | None = dict(env)
+            broke: Env | None = None
             for _ in range(3):
                 e2 = dict(cur)  # type: ignore[arg-type]
                 self.assign(st.target, self.elem_of(it), e2, self.where(st))
-                out = self.ex(st.body, e2)
+                # what reaches a `continue` flows to the next iteration like the end of the body; what reaches a `break` leaves the loop
+                self._loop_acc.append({"continue": None, "break": None})
+                try:
+                    out = self.ex(st.body, e2)
+                finally:
+                    acc = self._loop_acc.pop()
+                out = self.join_env(out, acc["continue"])
+                broke = self.join_env(broke, acc["break"])
                 nxt = self.join_env(cur, out)
                 if nxt == cur:
                     break
                 cur = nxt
                 it = self.ev(st.iter, cur)  # type: ignore[arg-type]
             post = self.ex(st.orelse, dict(cur)) if st.orelse else cur  # type: ignore[arg-type]
-            return self.join_env(cur, post)
+            return self.join_env(self.join_env(cur, post), broke)
         if isinstance(st, ast.While):
             cur = dict(env)
+            broke = None
             for _ in range(3):
                 self.ev(st.test, cur)
                 t_env, _f = self.narrow(st.test, cur)
-                out = self.ex(st.body, dict(t_env))
+                self._loop_acc.append({"continue": None, "break": None})
+                try:
+                    out = self.ex(st.body, dict(t_env))
+                finally:
+                    acc = self._loop_acc.pop()
+                out = self.join_env(out, acc["continue"])
+                broke = self.join_env(broke, acc["break"])
                 nxt = self.join_env(cur, out)
                 if nxt == cur:
                     break
                 cur = nxt  # type: ignore[assignment]
-            return cur
+            return self.join_env(cur, broke)
         if isinstance(st, ast.Try):
             a = self.ex(st.body, dict(env))
             outs = [self.ex(st.orelse, dict(a)) if (a is not None and st.orelse) else a]
@@ -1388,6 +1407,9 @@ class Interp:
         if isinstance(st, (ast.Pass, ast.Nonlocal, ast.Global, ast.Assert, ast.ClassDef)):
             return env
         if isinstance(st, (ast.Continue, ast.Break)):
+            if self._loop_acc:
+                k = "continue" if isinstance(st, ast.Continue) else "break"
+                self._loop_acc[-1][k] = self.join_env(self._loop_acc[-1][k], dict(env))
             return None
         if isinstance(st, ast.Match):
             outs2 = [self.ex(c.body, dict(env)) for c in st.cases]
